@@ -727,6 +727,14 @@ func genIDs(repo, out string) error {
 	}
 	defs.WriteString(s)
 
+	// AsInt64: the type switch, case by case (the conversions themselves are hand-modelled in
+	// Nexus.Ids.asInt64; a theorem pins this table).
+	s, err = t.asInt64Cases(fConvert)
+	if err != nil {
+		return err
+	}
+	defs.WriteString(s)
+
 	// GlobalID: return <expr over secureInt63n(N)>
 	s, err = t.globalID(fIdgen)
 	if err != nil {
@@ -851,6 +859,45 @@ func (t *idsTr) asID(f *ast.File) (string, error) {
 	fmt.Fprintf(&b, "def asIDInRange (%s : Int64) : Bool :=\n  %s\n\n", v.Name, c.s)
 	fmt.Fprintf(&b, "/-- `AsID` after `AsInt64` succeeded with value `%s`: `some id` when accepted. -/\n", v.Name)
 	fmt.Fprintf(&b, "def asIDOfInt64 (%s : Int64) : Option UInt64 :=\n  if asIDInRange %s then some %s else none\n\n", v.Name, v.Name, r.s)
+	return b.String(), nil
+}
+
+// asInt64Cases extracts the type switch of AsInt64 as a table (case type, returned expression).
+// Shape required: `switch v := v.(type) { case T: return EXPR, true … }; return 0, false`.
+func (t *idsTr) asInt64Cases(f *ast.File) (string, error) {
+	fd := c19FindFunc(f, "", "AsInt64")
+	if fd == nil || fd.Body == nil {
+		return "", fmt.Errorf("function AsInt64 not found")
+	}
+	bad := func(why string) error {
+		return fmt.Errorf("AsInt64 no longer has the shape `switch v := v.(type) { case T: return EXPR, true … }; return 0, false` (%s)", why)
+	}
+	if len(fd.Body.List) != 2 {
+		return "", bad("statement count")
+	}
+	sw, ok := fd.Body.List[0].(*ast.TypeSwitchStmt)
+	if !ok || sw.Init != nil {
+		return "", bad("type switch")
+	}
+	if last, ok := fd.Body.List[1].(*ast.ReturnStmt); !ok || len(last.Results) != 2 ||
+		c19ExprString(t.fset, last.Results[0]) != "0" || c19ExprString(t.fset, last.Results[1]) != "false" {
+		return "", bad("final return")
+	}
+	var rows []string
+	for _, st := range sw.Body.List {
+		cc := st.(*ast.CaseClause)
+		if len(cc.List) != 1 || len(cc.Body) != 1 {
+			return "", bad("case with several types, default case, or several statements")
+		}
+		ret, ok := cc.Body[0].(*ast.ReturnStmt)
+		if !ok || len(ret.Results) != 2 || c19ExprString(t.fset, ret.Results[1]) != "true" {
+			return "", bad("case body")
+		}
+		rows = append(rows, fmt.Sprintf("(%s, %s)", leanStr(c19ExprString(t.fset, cc.List[0])), leanStr(c19ExprString(t.fset, ret.Results[0]))))
+	}
+	var b strings.Builder
+	fmt.Fprintf(&b, "/-- The type switch `%s` of `AsInt64`: (case type, value returned with `true`);\n    any other dynamic type yields `0, false`. -/\n", c19ExprString(t.fset, sw.Assign))
+	fmt.Fprintf(&b, "def asInt64Cases : List (String × String) :=\n  [%s]\n\n", strings.Join(rows, ",\n   "))
 	return b.String(), nil
 }
 
